@@ -123,6 +123,7 @@ type VC struct {
 	usedContracts map[string]bool
 	constOf   map[string]string
 	ghostOut  Tuple
+	paramConsts []string
 }
 
 func newVC(eng *Engine, fn *ssa.Function, c *Contract) *VC {
